@@ -63,7 +63,7 @@ RULE = ("structures: 1-8 atoms on distinct sites of an 8x8x8 fractional grid (+ 
         "orientation, every angle within a few units of the printed precision 1e-4 degree of 90, or log-uniform 1e-3..0.5 degree "
         "off) | arbitrarily oriented (fractional output only) | orthorhombic-SHAPED but not axis-aligned: mutually perpendicular "
         "vectors with exactly zero dot products, axes permuted / rotated by a Pythagorean angle about one axis / rotated by a "
-        "rational 3-D rotation, either handedness (fractional output only), every term kind, extra columns on any subset of {atom, bond, angle, dihedral}, duplicate elements "
+        "rational 3-D rotation, either handedness (fractional output only), every term kind, terms that name an atom twice (bond i-i, angle i-j-i, ...: an atom and its own periodic image; also cells of 1-3 atoms, fewer atoms than the arity of the terms), extra columns on any subset of {atom, bond, angle, dihedral}, duplicate elements "
         "across types, dyadic and generic charges, fractional and Cartesian output; hand-written CIF texts with s.u. "
         "parentheses, Cartesian tags, both tag families, P1 / non-P1 / missing H-M items, cells orthorhombic | triclinic | almost "
         "orthorhombic (angles with 4 decimals within 1e-3 degree of 90); random strings for the s.u. "
@@ -243,9 +243,12 @@ def xval(rng):
 
 
 def gen_structure(rng, cellkind=None, placement="mixed", n=None, kinds=None, extras=None, improper_extras=False,
-                  elems=None, charges="mixed", mixed_case=None):
+                  elems=None, charges="mixed", mixed_case=None, self_image=None):
     """canonical JSON of a structure (see core.atoms_from_json). extras: set of kinds in {"atom","bond","angle","dihedral"}
-    that carry extra columns (None = random subset)."""
+    that carry extra columns (None = random subset).
+    self_image: terms may name the same atom more than once (bond i-i, angle i-j-i, torsion i-j-i-j, ...): in a small
+    periodic cell an atom is bonded to its own image in the neighbouring cell, and the term lists hold atom indices only.
+    Such structures may have fewer atoms than the arity of their terms.  None = random, only with a cell."""
     n = n or rng.randint(1, 8)
     cellkind = cellkind or rng.choice(["ortho", "ortho2", "tri+", "tri-", "tri", "rot", "none"])
     cell = gen_cell(rng, cellkind)
@@ -269,6 +272,8 @@ def gen_structure(rng, cellkind=None, placement="mixed", n=None, kinds=None, ext
         extras = {k for k in ["atom", "bond", "angle", "dihedral"] if rng.random() < 0.4}
     if mixed_case is None:
         mixed_case = False          # upper-case letters in extra data names: known-finding stream
+    if self_image is None:
+        self_image = cell is not None and rng.random() < 0.25
     if "improper" in kinds and "dihedral" in extras and not improper_extras:
         extras = set(extras) - {"dihedral"}                # the combination that makes save_p1_cif raise: known-finding stream
     def lab(s):
@@ -290,13 +295,18 @@ def gen_structure(rng, cellkind=None, placement="mixed", n=None, kinds=None, ext
     for k in KINDS:
         ar = ARITY[k]
         terms, xl = [], []
-        if k in kinds and n >= ar:
+        if k in kinds and (n >= ar or self_image):
             if k in extras or (k == "improper" and improper_extras):
                 xl = [lab("_geom_%s_u_tag" % ("torsion" if k in ("dihedral", "improper") else k))]
                 if rng.random() < 0.3:
                     xl.append("_geom_%s_aux" % k)
             for t in range(rng.randint(1, 4)):
-                tupl = rng.sample(range(n), ar)
+                if self_image and (n < ar or rng.random() < 0.6):
+                    # fewer distinct atoms than places: at least one atom occurs twice (with its periodic image)
+                    pool = rng.sample(range(n), rng.randint(1, min(n, ar - 1)))
+                    tupl = [rng.choice(pool) for _ in range(ar)]
+                else:
+                    tupl = rng.sample(range(n), ar)
                 if rng.random() < 0.15:                    # python's negative indexing: i - n names the same atom as i
                     tupl = [i - n if rng.random() < 0.5 else i for i in tupl]
                 terms.append({"a": tupl, "ty": rng.randrange(3),
@@ -809,6 +819,8 @@ def gen_handwritten(rng):
         lines += ["loop_", "_geom_bond_atom_site_label_1", "_geom_bond_atom_site_label_2", "_geom_bond_distance"]
         for _ in range(rng.randint(1, 3)):
             i, k = rng.sample(range(n), 2)
+            if rng.random() < 0.2:
+                k = i                                            # an atom bonded to its own periodic image
             bonds.append([i, k])
             lines.append("%s  %s  %.3f%s" % (labs[i], labs[k], rng.uniform(1, 2), su()))
     text = "\n".join(lines) + "\n"
@@ -1015,6 +1027,13 @@ def default_cases(ctx):
         pl = rng.choice(placements)
         aj, _ = gen_structure(rng, cellkind=ck, placement=pl)
         out.append({"op": "roundtrip", "a": aj, "fract": fract, "stream": "default", "cellkind": ck, "placement": pl})
+    # small periodic cells (1-3 atoms): atoms bonded to their own periodic images, terms that repeat an atom
+    for s in range(ctx.n(16, 200)):
+        ck = rng.choice(["ortho", "ortho2", "tri+", "tri-", "tri", "near90"])
+        ks = ["bond"] + [k for k in ["angle", "dihedral", "improper"] if rng.random() < 0.5]
+        aj, _ = gen_structure(rng, cellkind=ck, placement=rng.choice(["inside", "mixed", "boundary"]), n=rng.randint(1, 3),
+                              kinds=ks, self_image=True)
+        out.append({"op": "roundtrip", "a": aj, "fract": rng.random() < 0.6, "stream": "small-cell", "cellkind": ck, "placement": "mixed"})
     # every subset of kinds carrying extra columns, every term kind present
     for mask in range(16):
         ex = {k for i, k in enumerate(["atom", "bond", "angle", "dihedral"]) if mask >> i & 1}
@@ -1250,6 +1269,9 @@ def judge_state(ctx, inp, aj, fract, ops, pending, oracle_only, obj=None, where=
             ctx.count("terms:" + k)
     if any(x < 0 for k in KINDS for t in aj["terms"][k] for x in t["a"]):
         ctx.count("terms:negative-index")
+    for k in KINDS:
+        if any(len({x % len(aj["atoms"]) for x in t["a"]}) < len(t["a"]) for t in aj["terms"][k]):
+            ctx.count("terms:self-image:" + k)
     big = len(aj["atoms"]) > LARGE_TIE_LIMIT
     show_ase = (not big) and ase_can_parse_values(aj)
     if not show_ase and not big:
